@@ -73,5 +73,6 @@ func TestVerifRace(t *testing.T) {
 	if !ok {
 		t.Fatalf("unknown racer %s", name)
 	}
+	vRacing = true
 	f()
 }
